@@ -10,6 +10,7 @@ import Hpfeeds.Lemmas.BrokerStore
 import Hpfeeds.Lemmas.BrokerDeliv
 import Hpfeeds.Lemmas.BrokerReg
 import Hpfeeds.Lemmas.BrokerFrame
+import Hpfeeds.Lemmas.BrokerGauge
 namespace Hpfeeds.Broker
 open Hpfeeds Extracted
 
@@ -740,5 +741,47 @@ theorem delivF_runF (cfg : Cfg) (es : List (Store × List Nat × Event)) : Deliv
   induction es with
   | nil => intro s h; exact h
   | cons e es ih => intro s h; exact ih _ (regDelivF_stepF _ _ s e.2.2 h)
+
+/-! ### the gauges under write faults: a refused write only closes a transport, which moves no gauge -/
+
+theorem gauge_deliverF {s : State} (F : Nat → Bool) (f : Frame) (d : Nat) (hr : Reg s) (h : Gauge s) :
+    Gauge (deliverF F f s d) := by
+  unfold deliverF
+  split
+  · exact h
+  · split
+    · exact gauge_connectionLost d hr h
+    · split
+      · exact gauge_closeT d h
+      · exact gauge_logAct d _ h
+
+theorem gauge_foldl_deliverF {s : State} (F : Nat → Bool) (f : Frame) (l : List Nat) (hr : Reg s) (h : Gauge s) :
+    Gauge (l.foldl (deliverF F f) s) := by
+  induction l generalizing s with
+  | nil => exact h
+  | cons a l ih => exact ih (reg_deliverF F f a hr) (gauge_deliverF F f a hr h)
+
+theorem gauge_publishF {s : State} (F : Nat → Bool) (c : Nat) (x : Conn) (i ch p : Bytes) (hr : Reg s) (h : Gauge s) :
+    Gauge (publishF F s c x i ch p) := by
+  unfold publishF
+  exact gauge_congr (s := (s.subs ch).eraseDups.foldl (deliverF F (pubFrame i ch p)) s) rfl rfl rfl rfl rfl rfl
+    (gauge_foldl_deliverF F _ _ hr h)
+
+theorem regGauge_stepF (F : Nat → Bool) (cfg : Cfg) (s : State) (e : Event) (h : Reg s ∧ Gauge s) :
+    Reg (stepF F cfg s e) ∧ Gauge (stepF F cfg s e) :=
+  pres_stepG_at (P := fun s => Reg s ∧ Gauge s) s e (fun c _ => (regGaugePres cfg).prim c)
+    (fun c _ s x i ch p _ _ _ _ h => ⟨reg_publishF F c x i ch p h.1, gauge_publishF F c x i ch p h.1 h.2⟩)
+    (fun ms _ h => (regGaugePres cfg).tick _ ms h) h
+
+/-- every gauge equals reality after EVERY history with write faults and a changing store -/
+theorem gauge_runF (cfg : Cfg) (es : List (Store × List Nat × Event)) : Gauge (runF cfg es) := by
+  unfold runF
+  suffices ∀ s, (Reg s ∧ Gauge s) →
+      (Reg (es.foldl (fun s e => stepF (fun d => decide (d ∈ e.2.1)) (cfg.withStore e.1) s e.2.2) s) ∧
+       Gauge (es.foldl (fun s e => stepF (fun d => decide (d ∈ e.2.1)) (cfg.withStore e.1) s e.2.2) s)) from
+    (this _ ⟨reg_init, gauge_init⟩).2
+  induction es with
+  | nil => intro s h; exact h
+  | cons e es ih => intro s h; exact ih _ (regGauge_stepF _ _ s e.2.2 h)
 
 end Hpfeeds.Broker
